@@ -92,6 +92,8 @@ pub fn selftest() -> i32 {
         Box::new(super::scen_chaos::Chaos { full_stack: true }),
         Box::new(super::scen_locks::Locks { cyclic: false }),
         Box::new(super::scen_discover::Discover { faults: true }),
+        Box::new(super::scen_cacherace::CacheRace),
+        Box::new(super::scen_cli::Cli),
     ];
     let n: u64 = std::env::var("PLSIM_SELFTEST_SEEDS").ok().and_then(|s| s.parse().ok()).unwrap_or(120);
     let mut total = 0u64;
@@ -137,7 +139,7 @@ pub fn selftest() -> i32 {
     }
     // 5. the first execution in a fresh process must equal later ones (process-wide lazily initialised
     //    tables must not be created inside a simulated thread: replay files are executed first in their process)
-    for (prop, name) in [("C06", "history"), ("C07", "cache-history"), ("C09", "race"), ("C10", "scanedit"), ("C19", "diagnostics"), ("C12", "locks"), ("C13", "discover-faults"), ("C01", "resolve-venv")] {
+    for (prop, name) in [("C06", "history"), ("C07", "cache-history"), ("C09", "race"), ("C10", "scanedit"), ("C19", "diagnostics"), ("C12", "locks"), ("C13", "discover-faults"), ("C01", "resolve-venv"), ("C07", "cache-race")] {
         for seed in [2069305113998522011u64, 77] {
             let o = std::process::Command::new(std::env::current_exe().unwrap()).args(["debug-determinism", prop, name, &seed.to_string(), "3"]).output();
             match o {
